@@ -156,8 +156,8 @@ pub fn compare_layers(got: &[DLayer], want: &Want) -> Option<String> {
 pub fn run(ctx: Arc<Ctx>) {
 	ctx.rule(
 		"catalogue of 15 valid vector tiles built by an independent MVT encoder (disjoint/overlapping layer names, tables in other order / with duplicates / unused entries, ids none/0/2^64-1, all value kinds, extents, empty layer); \
-		 every ordered pair (quick) and every ordered triple (thorough; quick: triples over the first 6) as source lists; each source holds its tile at one coordinate per presence mask, so every presence pattern occurs; source compressions mixed. \
-		 plus every ordered pair of a bounded-exhaustive family of small layers of one name (5 key tables x 4 value tables x feature lists with every tag list of <= 2 pairs; every 2nd per side in quick, all in thorough) merged through one pipeline whose sources hold layer i resp. j at (10,i,j). plus merges whose key/value tables cross 128 / 16384 (thorough: 2^21) entries only after merging. oracle on independently decoded output: layer set, features in source order with id/type/geometry bytes/property set, declared+delivered uncompressed, lookups = stream. non-trivial = (source list, presence mask) with >= 2 sources present",
+		 every ordered pair and every ordered triple and every ordered 4-tuple over the first 4 as source lists; each source holds its tile at one coordinate per presence mask, so every presence pattern occurs; source compressions mixed. \
+		 plus every ordered pair of a bounded-exhaustive family of small layers of one name (5 key tables x 4 value tables x feature lists with every tag list of <= 2 pairs; all in both tiers) merged through one pipeline whose sources hold layer i resp. j at (10,i,j). plus merges whose key/value tables cross 128 / 16384 (thorough: 2^21) entries only after merging. oracle on independently decoded output: layer set, features in source order with id/type/geometry bytes/property set, declared+delivered uncompressed, lookups = stream. non-trivial = (source list, presence mask) with >= 2 sources present",
 	);
 	let cat = catalogue();
 	let decoded: Vec<Vec<DLayer>> = cat.iter().map(|(n, t)| mvt::decode_tile(&mvt::encode_tile(t)).unwrap_or_else(|e| panic!("catalogue tile '{n}' does not decode: {e}"))).collect();
@@ -168,7 +168,7 @@ pub fn run(ctx: Arc<Ctx>) {
 			tuples.push(vec![a, b]);
 		}
 	}
-	let tn = ctx.tier.pick(6usize, n);
+	let tn = n;
 	for a in 0..tn {
 		for b in 0..tn {
 			for c in 0..tn {
@@ -176,7 +176,7 @@ pub fn run(ctx: Arc<Ctx>) {
 			}
 		}
 	}
-	if ctx.tier == Tier::Thorough {
+	{
 		for a in 0..4 {
 			for b in 0..4 {
 				for c in 0..4 {
@@ -313,7 +313,7 @@ pub fn run(ctx: Arc<Ctx>) {
 fn systematic(ctx: &Arc<Ctx>, work: &std::path::Path) {
 	let all = mvt::small_layers("a");
 	// quick: every 2nd layer on each side (plus the first 12), thorough: all
-	let pick: Vec<usize> = (0..all.len()).filter(|i| ctx.tier == Tier::Thorough || *i < 12 || i % 2 == 0).collect();
+	let pick: Vec<usize> = (0..all.len()).filter(|_| true).collect();
 	let ls: Vec<&mvt::MLayer> = pick.iter().map(|i| &all[*i]).collect();
 	let enc: Vec<Vec<u8>> = ls.iter().map(|l| mvt::encode_tile(&[(*l).clone()])).collect();
 	let dec: Vec<Vec<DLayer>> = enc.iter().map(|b| mvt::decode_tile(b).expect("small layer decodes")).collect();
